@@ -104,10 +104,11 @@ PATTERNS = [
     (1,), (2,), (3,),
 ]
 FIRST_ONE = [p for p in PATTERNS if p[0] == 1 and sum(p) > 1]
+UNIT = [p for p in PATTERNS if sum(p) == 1]
 ZERO_TOTAL = [(0, 0), (0,), (0, 0, 0)]
 
 
-def gen_selection(rng, counts, nd=None, u=None, form=None):
+def gen_selection(rng, counts, nd=None, u=None, form=None, olen=None):
     """(src, sel, info) for the per-block kept counts `counts` along axis u of an nd-dimensional source"""
     nd = nd or rng.choice([1, 1, 2, 2, 3])
     u = rng.randrange(nd) if u is None else u
@@ -117,7 +118,7 @@ def gen_selection(rng, counts, nd=None, u=None, form=None):
         keep = set(rng.sample(range(s), c))
         bits += [1 if i in keep else 0 for i in range(s)]
     n = sum(sizes)
-    shape = [rng.randint(1, 3) for _ in range(nd)]
+    shape = [olen or rng.randint(1, 3) for _ in range(nd)]
     shape[u] = n
     chunks = []
     for i, k in enumerate(shape):
@@ -165,6 +166,26 @@ def _partner(m, sp):
         data = (data % 3) != 0
         if sp.get("last_true") and data.size:
             data.reshape(-1)[-1] = True
+    um = sp.get("umask")
+    if um:
+        # the partner is itself a selection of unknown length along um["axis"] (sp["shape"] is its source's shape)
+        bits = np.array(um["bits"], dtype=bool)
+        pre = (slice(None),) * um["axis"]
+        if m is np:
+            return data[pre + (bits,)]
+        if sp.get("plain"):  # control: the materialised partner with its true block sizes
+            cks = [list(c) for c in sp["chunks"]]
+            pos, true = 0, []
+            for n in um["mchunks"]:
+                true.append(int(bits[pos:pos + n].sum()))
+                pos += n
+            cks[um["axis"]] = true
+            return m.from_array(data[pre + (bits,)], chunks=tuple(tuple(c) for c in cks))
+        x = m.from_array(data, chunks=tuple(tuple(c) for c in sp["chunks"]))
+        y = x[pre + (m.from_array(bits, chunks=(tuple(um["mchunks"]),)),)]
+        if sp.get("resolve"):
+            y.compute_chunk_sizes()
+        return y
     if m is np:
         return data
     return m.from_array(data, chunks=tuple(tuple(c) for c in sp["chunks"]))
@@ -220,6 +241,7 @@ OPS = {
     "squeeze_u_neg": lambda m, a, p: a.squeeze(p["u"] - a.ndim),
     "squeeze_u_tuple": lambda m, a, p: a.squeeze(axis=(p["u"],)),
     "squeeze_none": lambda m, a, p: m.squeeze(a),
+    "squeeze_u_dispatch": lambda m, a, p: np.squeeze(a, axis=p["u"]),  # NumPy's function applied to the dask array (__array_function__)
     "squeeze_newaxis_u": lambda m, a, p: a[None].squeeze(axis=p["u"] + 1),
     "squeeze_newaxis_both": lambda m, a, p: a[None].squeeze(axis=(0, p["u"] + 1)),
     "squeeze_newaxis_0": lambda m, a, p: a[None].squeeze(axis=0),
@@ -312,7 +334,7 @@ OPS = {
     "outer": lambda m, a, p: m.outer(a, _partner(m, p["partner"])),
     "meshgrid": lambda m, a, p: list(m.meshgrid(a, _partner(m, p["partner"]))),
     "isin_partner": lambda m, a, p: m.isin(a, _partner(m, p["partner"])),
-    "searchsorted_in": lambda m, a, p: m.searchsorted(a, _partner(m, p["partner"]) * 9 + a[0:0].sum()),
+    "searchsorted_in": lambda m, a, p: m.searchsorted(a, np.array(p["vals"]) if m is np else m.from_array(np.array(p["vals"]), chunks=2)),
     "searchsorted_of": lambda m, a, p: m.searchsorted(_partner(m, p["partner"]), a),
     # ---- conversions that need exactly one element / a length
     "item": lambda m, a, p: _item(m, a),
@@ -321,7 +343,6 @@ OPS = {
     "index": lambda m, a, p: [10, 11, 12][_item(m, a) % 3] if m is np else [10, 11, 12][int(a % 3)],
     "len": lambda m, a, p: len(a),
     "iter": lambda m, a, p: _iter_rows(m, a),
-    "item_sum_keep": lambda m, a, p: _item(m, a.sum(axis=p["u"], keepdims=True)) if a.ndim == 1 else a.sum(axis=p["u"], keepdims=True),
     # ---- shape-dependent constructions
     "diag": lambda m, a, p: m.diag(a),
     "diagonal": lambda m, a, p: m.diagonal(a, offset=p["k"]),
@@ -381,7 +402,33 @@ def _partner_like(rng, G, ax_len, ax=None, shape=None, **kw):
     mode = rng.choice(["one", "one", "random", "same-count"])
     sp = {"shape": shape, "chunks": _pchunks(rng, G, shape, ax, mode), "mul": rng.choice([1, 3, 5]), "off": rng.randint(0, 4), "mod": rng.choice([17, 1 << 40])}
     sp.update(kw)
+    if rng.random() < 0.25 and not kw.get("bool"):
+        # the partner is an unknown-length selection as well, keeping ax_len elements: as many blocks as the selection
+        # (its first block keeping the same number / another number) or another block count
+        nb = len(G["counts"]) if rng.random() < 0.6 else rng.randint(1, 3)
+        counts = [0] * nb
+        left = ax_len
+        if rng.random() < 0.5 and G["c0"] <= left:
+            counts[0] = G["c0"]
+            left -= G["c0"]
+        for _ in range(left):
+            counts[rng.randrange(nb)] += 1
+        sizes = [max(1, c + rng.choice([0, 0, 1])) for c in counts]
+        bits = []
+        for c, n in zip(counts, sizes):
+            keep = set(rng.sample(range(n), c))
+            bits += [1 if i in keep else 0 for i in range(n)]
+        shape = list(shape)
+        shape[ax] = sum(sizes)
+        cks = [list(c) for c in sp["chunks"]]
+        cks[ax] = sizes
+        sp.update({"shape": shape, "chunks": cks, "umask": {"axis": ax, "bits": bits, "mchunks": sizes}})
     return sp
+
+
+def _samp(rng, xs, n):
+    xs = list(xs)
+    return rng.sample(xs, min(n, len(xs)))
 
 
 def params(rng, op, G):
@@ -402,10 +449,10 @@ def params(rng, op, G):
 
     shp = G["shape"]
     size = int(np.prod(shp))
-    if op in ("squeeze_u", "squeeze_u_neg", "squeeze_u_tuple", "squeeze_none", "squeeze_newaxis_u", "squeeze_newaxis_both", "squeeze_newaxis_0",
+    if op in ("squeeze_u", "squeeze_u_dispatch", "squeeze_u_neg", "squeeze_u_tuple", "squeeze_none", "squeeze_newaxis_u", "squeeze_newaxis_both", "squeeze_newaxis_0",
               "squeeze_trailing_new", "expand_squeeze_u", "expand_squeeze_new", "squeeze_u_sum", "squeeze_u_derived", "squeeze_u_T", "squeeze_u_slice",
               "squeeze_keepdims", "squeeze_u_add", "ravel", "ravel_fn", "flatten", "T", "atleast_1d", "atleast_2d", "atleast_3d", "flip", "len", "iter",
-              "ones_like", "full_like", "median", "cumsum_flat", "argmax_flat", "argmin_u", "unique", "gradient", "item_sum_keep"):
+              "ones_like", "full_like", "median", "cumsum_flat", "argmax_flat", "argmin_u", "unique", "gradient"):
         return [P()]
     if op in ("squeeze_o", "squeeze_u_o", "swapaxes"):
         return [P()] if o is not None else []
@@ -419,7 +466,7 @@ def params(rng, op, G):
             n_o = size // max(L, 1)
             cands += [list(shp), [shp[u] if i == u else s for i, s in enumerate(shp)][::-1], [-1, n_o], [n_o, -1], [L, -1], [c0, n_o] if c0 else [1, n_o],
                       [-1 if i == u else s for i, s in enumerate(shp)], [1 if i == u else s for i, s in enumerate(shp)]]
-        ks = rng.sample(cands, min(len(cands), 5))
+        ks = _samp(rng, cands, min(len(cands), 5))
         return [P(shape=s) for s in ks]
     if op == "transpose_axes":
         if nd < 2:
@@ -438,73 +485,76 @@ def params(rng, op, G):
             s[u] = k
             out.append(P(shape=s))
             out.append(P(shape=[2] + s))
-        return rng.sample(out, min(len(out), 5))
+        return _samp(rng, out, min(len(out), 5))
     if op in ("int_u", "int_u_sum", "take_scalar", "slice_rev_int", "setitem_int", "delete", "insert"):
         ks = _positions(G)
-        return [P(k=k) for k in rng.sample(ks, min(len(ks), 4 if op == "int_u" else 3))]
+        return [P(k=k) for k in _samp(rng, ks, min(len(ks), 4 if op == "int_u" else 3))]
     if op in ("slice_from", "slice_to"):
-        return [P(k=k) for k in rng.sample([c0, -c0 if c0 else -1, L, L - 1, 1, -1], 2)]
+        return [P(k=k) for k in _samp(rng, [c0, -c0 if c0 else -1, L, L - 1, 1, -1], 2)]
     if op in ("take_list", "take_fn", "vindex", "setitem_list"):
         if op == "vindex" and nd != 1:
             return []
         cands = [[0, L - 1], [0, L], [-L - 1], [c0], [L - 1, 0, c0], [0, 0], [-1, -L], [c0 - 1, c0] if c0 else [0], [L]]
-        return [P(idx=i) for i in rng.sample(cands, 3)]
+        return [P(idx=i) for i in _samp(rng, cands, 3)]
     if op in ("boolmask_np", "boolmask_da", "compress_cond"):
         out = []
         for k in _plens(G):
             sp = {"shape": [k], "chunks": _pchunks(rng, G, [k], 0, rng.choice(["one", "same-count", "random"])), "mul": rng.choice([1, 5, 7]), "off": rng.randint(0, 3),
                   "mod": 17, "bool": True, "last_true": True}
             out.append(P(partner=sp))
-        return rng.sample(out, min(len(out), 3))
+        return _samp(rng, out, min(len(out), 3))
     if op == "diff":
-        return [P(k=k) for k in rng.sample(sorted({1, 2, max(c0, 1), max(L, 1)}), 2)]
+        return [P(k=k) for k in _samp(rng, sorted({1, 2, max(c0, 1), max(L, 1)}), 2)]
     if op == "ediff1d":
         return [P()] if nd == 1 else []
     if op in ("swv", "swv_sum", "swv_max", "map_overlap"):
         ws = sorted({1, 2, c0 + 1, max(L, 1), L + 1})
-        return [P(k=k) for k in rng.sample(ws, 2 if op != "swv" else 3)]
+        return [P(k=k) for k in _samp(rng, ws, 2 if op != "swv" else 3)]
     if op == "repeat_each":
         out = []
         for k in _plens(G):
             out.append(P(reps=[1 + (i * 2) % 3 for i in range(k)]))
-        return rng.sample(out, min(len(out), 3))
+        return _samp(rng, out, min(len(out), 3))
     if op in ("repeat_k", "repeat_flat"):
         return [P(k=rng.choice([1, 2, 3]))]
     if op == "tile":
-        return [P(reps=r) for r in rng.sample([[2], [1, 2], [2, 1], [1] * nd, [2] * nd], 2)]
+        return [P(reps=r) for r in _samp(rng, [[2], [1, 2], [2, 1], [1] * nd, [2] * nd], 2)]
     if op == "pad":
-        return [P(k=rng.choice([1, 2]), mode=md) for md in rng.sample(["constant", "edge", "reflect", "wrap"], 2)]
+        return [P(k=rng.choice([1, 2]), mode=md) for md in _samp(rng, ["constant", "edge", "reflect", "wrap"], 2)]
     if op in ("roll", "roll_flat"):
-        return [P(k=k) for k in rng.sample([1, -1, max(c0, 1), max(L, 1), L + 1], 2)]
+        return [P(k=k) for k in _samp(rng, [1, -1, max(c0, 1), max(L, 1), L + 1], 2)]
     if op in ("stack0", "stack_last", "add_partner", "where_partner", "choose", "broadcast_arrays"):
-        return [P(partner=_partner_like(rng, G, k)) for k in rng.sample(_plens(G), min(3, len(_plens(G))))]
+        return [P(partner=_partner_like(rng, G, k)) for k in _samp(rng, _plens(G), min(3, len(_plens(G))))]
     if op in ("concat_u",):
-        return [P(partner=_partner_like(rng, G, k)) for k in rng.sample(_plens(G), 2)]
+        return [P(partner=_partner_like(rng, G, k)) for k in _samp(rng, _plens(G), 2)]
     if op in ("concat_o", "append_o"):
         if o is None:
             return []
-        return [P(partner=_partner_like(rng, G, k)) for k in rng.sample(_plens(G), min(3, len(_plens(G))))]
+        return [P(partner=_partner_like(rng, G, k)) for k in _samp(rng, _plens(G), min(3, len(_plens(G))))]
     if op in ("vstack", "hstack", "dstack", "block_row", "block_col"):
-        return [P(partner=_partner_like(rng, G, k)) for k in rng.sample(_plens(G), min(2, len(_plens(G))))]
+        return [P(partner=_partner_like(rng, G, k)) for k in _samp(rng, _plens(G), min(2, len(_plens(G))))]
     if op in ("vdot", "einsum_inner", "outer", "isin_partner", "searchsorted_in", "searchsorted_of", "meshgrid"):
         if nd != 1:
             return []
         if op == "searchsorted_of":
             return [P(partner={"shape": [4], "chunks": [[2, 2]], "mul": 40, "off": 0, "mod": 1 << 40})]
         if op == "searchsorted_in":
-            return [P(partner={"shape": [3], "chunks": [rng.choice([[3], [1, 2]])], "mul": rng.choice([1, 2, 5]), "off": rng.randint(0, 9), "mod": 1 << 40})]
-        return [P(partner=_partner_like(rng, G, k)) for k in rng.sample(_plens(G), min(3, len(_plens(G))))]
+            a = G["a"]
+            if not a.size:
+                return [P(vals=[0, 5])]
+            return [P(vals=sorted({int(a.min()) - 1, int(a[len(a) // 2]), int(a.max()), int(a.max()) + 1}))]
+        return [P(partner=_partner_like(rng, G, k)) for k in _samp(rng, _plens(G), min(3, len(_plens(G))))]
     if op == "einsum_mat":
         if nd != 2:
             return []
         out = []
-        for k in rng.sample(_plens(G), min(3, len(_plens(G)))):
+        for k in _samp(rng, _plens(G), min(3, len(_plens(G)))):
             sp = _partner_like(rng, G, k, ax=0, shape=[k])
             out.append(P(partner=sp))
         return out
     if op in ("dot", "matmul"):
         out = []
-        for k in rng.sample(_plens(G), min(3, len(_plens(G)))):
+        for k in _samp(rng, _plens(G), min(3, len(_plens(G)))):
             if nd == 1:
                 out.append(P(partner=_partner_like(rng, G, k, ax=0, shape=[k])))
             elif nd == 2 and u == 1:  # a (n, L) @ partner (k, 2)
@@ -514,19 +564,19 @@ def params(rng, op, G):
         return out
     if op == "tensordot_u":
         out = []
-        for k in rng.sample(_plens(G), min(3, len(_plens(G)))):
+        for k in _samp(rng, _plens(G), min(3, len(_plens(G)))):
             out.append(P(partner=_partner_like(rng, G, k, ax=1, shape=[2, k]), pu=1))
         return out
     if op == "average_w":
-        return [P(partner=_partner_like(rng, G, k, ax=0, shape=[k])) for k in rng.sample(_plens(G), min(3, len(_plens(G))))]
+        return [P(partner=_partner_like(rng, G, k, ax=0, shape=[k])) for k in _samp(rng, _plens(G), min(3, len(_plens(G))))]
     if op == "diag":
         return [P()] if nd == 1 else []
     if op in ("diagonal", "trace", "tril", "triu"):
         if nd != 2:
             return []
-        return [P(k=k) for k in rng.sample([0, 1, -1, c0], 2)]
+        return [P(k=k) for k in _samp(rng, [0, 1, -1, c0], 2)]
     if op == "topk":
-        return [P(k=k) for k in rng.sample(sorted({1, c0 + 1, max(L, 1), L + 1}), 2)]
+        return [P(k=k) for k in _samp(rng, sorted({1, c0 + 1, max(L, 1), L + 1}), 2)]
     if op == "count_nonzero":
         return [P(k=rng.randint(0, 60))]
     raise KeyError(op)
@@ -596,18 +646,27 @@ def eval_case(case, want_control=False):
         except Exception as e:
             out["np"] = ("raise", type(e).__name__)
         with dask.config.set({"array.optimize-graph": bool(case.get("opt", True)), "scheduler": "synchronous"}):
+            unknown_partner = isinstance(p.get("partner"), dict) and p["partner"].get("umask")
             try:
                 a = build_selection(da, src, sel)
-                if case["phase"] == "after":
+                if case["phase"] in ("after", "partial"):
                     a.compute_chunk_sizes()
-                out["da"] = ("ok", _materialise(f(da, a, p), da))
+                p1 = p
+                if case["phase"] == "after" and unknown_partner:  # "after": every unknown input is resolved
+                    p1 = dict(p)
+                    p1["partner"] = dict(p["partner"], resolve=True)
+                out["da"] = ("ok", _materialise(f(da, a, p1), da))
             except Exception as e:
                 out["da"] = ("raise", type(e).__name__, str(e)[:140].replace("\n", " "))
             if want_control:
                 try:
                     a_np = np.asarray(build_selection(np, src, sel))
                     plain = da.from_array(a_np, chunks=_resolved_chunks(src, sel))
-                    out["ctl"] = ("ok", _materialise(f(da, plain, p), da))
+                    p2 = p
+                    if unknown_partner:
+                        p2 = dict(p)
+                        p2["partner"] = dict(p["partner"], plain=True)
+                    out["ctl"] = ("ok", _materialise(f(da, plain, p2), da))
                 except Exception as e:
                     out["ctl"] = ("raise", type(e).__name__, str(e)[:140].replace("\n", " "))
     return out
@@ -654,9 +713,23 @@ def judge(case, res=None):
     return (f"validity:{kind}:{case['op']}", what)
 
 
+SQUEEZE_NONE = "unknown-squeeze-none-keeps-unit-axis"
+SEARCHSORTED = "unknown-searchsorted-nan-positions"
+SHORT_BOOLMASK = "unknown-onechunk-short-boolmask-accepted"
+
+
 def classify(case, sig):
     """documented families reached through another call"""
-    if case["phase"] == "before" and case["op"] in PAIRING and (":wrong-result:" in sig or ":value-where-numpy-raises:" in sig or ":advertised-shape:" in sig):
+    if case["phase"] == "before" and case["op"] == "squeeze_none" and sig == "validity:wrong-result:squeeze_none":
+        G = true_info(case["src"], case["sel"])
+        if G["L"] == 1:
+            # squeeze(axis=None) cannot know that the unknown axis has length one: it keeps it
+            return SQUEEZE_NONE
+    if case["phase"] == "before" and case["op"] == "boolmask_np" and sig == "validity:value-where-numpy-raises:boolmask_np" and len(case["sel"]["mchunks"]) == 1:
+        return SHORT_BOOLMASK
+    if case["phase"] == "before" and case["op"] == "searchsorted_in" and sig == "validity:wrong-result:searchsorted_in":
+        return SEARCHSORTED
+    if case["phase"] != "after" and case["op"] in PAIRING and (":wrong-result:" in sig or ":value-where-numpy-raises:" in sig or ":advertised-shape:" in sig):
         sp = case["p"].get("partner")
         if sp is not None:
             G = true_info(case["src"], case["sel"])
@@ -672,7 +745,9 @@ def describe(case):
     out = [f"x = da.from_array(source_data({{shape:{s['shape']}, mul:{s['mul']}, off:{s['off']}}}), chunks={s['chunks']})",
            f"mask = {''.join(map(str, sel['bits']))} (blocks {sel['mchunks']}) along axis {sel['axis']}; a = select[{sel['form']}](x, mask)"]
     if case["phase"] == "after":
-        out.append("a.compute_chunk_sizes()")
+        out.append("a.compute_chunk_sizes() (and the partner, when it is an unknown-length selection)")
+    if case["phase"] == "partial":
+        out.append("a.compute_chunk_sizes() (the partner stays unknown)")
     out.append(f"result = op[{case['op']}](a; {case['p']})  [optimize-graph={case.get('opt', True)}]")
     return "; ".join(out)
 
@@ -693,6 +768,8 @@ def _run_case(ctx, case, tally):
     if bad[0] == "control":
         k = f"validity.control.{bad[1]}.{case['op']}"
         ctx.notes[k] = ctx.notes.get(k, 0) + 1
+        if bad[1] in ("value-where-numpy-raises", "wrong-result"):
+            ctx.notes.setdefault("validity.control.sample." + case["op"], describe(case))
         return
     sig, what = bad
     sig = classify(case, sig)
@@ -700,7 +777,31 @@ def _run_case(ctx, case, tally):
     ctx.fail(sig, {"case": case, "what": what, "program": describe(case)}, what)
 
 
-PROBES = []
+def _s1(n, chunks, off=100):
+    return {"op": "src", "shape": [n], "chunks": [list(chunks)], "mul": 1, "off": off, "mod": 1 << 40}
+
+
+PROBES = [
+    # (signature, case, what): dedicated probes of the families found through this stream (fail while the defect exists)
+    (SHORT_BOOLMASK,
+     {"stream": "validity", "src": _s1(4, [4], off=10), "sel": {"axis": 0, "bits": [1, 1, 1, 0], "mchunks": [4], "form": "getitem"},
+      "op": "boolmask_np", "p": {"u": 0, "partner": {"shape": [1], "chunks": [[1]], "mul": 1, "off": 1, "mod": 17, "bool": True, "last_true": True}},
+      "phase": "before", "opt": True},
+     "x=from_array(arange(10,14), chunks=4); y=x[from_array([T,T,T,F], chunks=4)]; y[np.array([True])].compute() -> [10] (also [True, False]); NumPy "
+     "raises IndexError (boolean index of size 1 on an axis of size 3), a known-size dask array raises too, a mask that is too LONG is refused: "
+     "on a single-block axis of unknown length a too-short NumPy boolean mask is converted to integer positions and taken from the block"),
+    (SQUEEZE_NONE,
+     {"stream": "validity", "src": _s1(4, [2, 2]), "sel": {"axis": 0, "bits": [0, 0, 1, 0], "mchunks": [2, 2], "form": "getitem"},
+      "op": "squeeze_none", "p": {"u": 0}, "phase": "before", "opt": True},
+     "x=from_array(arange(100,104), chunks=2); y=x[from_array([F,F,T,F], chunks=2)]; da.squeeze(y).compute() has shape (1,), np.squeeze gives shape () "
+     "(squeeze(axis=None) silently keeps an axis of unknown length whose true length is one; after compute_chunk_sizes it is dropped)"),
+    (SEARCHSORTED,
+     {"stream": "validity", "src": _s1(4, [2, 2]), "sel": {"axis": 0, "bits": [1, 0, 1, 1], "mchunks": [2, 2], "form": "getitem"},
+      "op": "searchsorted_in", "p": {"u": 0, "vals": [100, 103]}, "phase": "before", "opt": True},
+     "x=from_array(arange(100,104), chunks=2); y=x[from_array([T,F,T,T], chunks=2)]; da.searchsorted(y, from_array([100,103], chunks=2)).compute() "
+     "-> [0., nan], NumPy [0, 2]: the block offsets are the cumulative sums of the nan chunk sizes, so every position found beyond the first "
+     "block is nan (float dtype) instead of a refusal"),
+]
 
 
 def run_stream(ctx):
@@ -726,9 +827,23 @@ def run_stream(ctx):
             src, sel = gen_selection(rng, counts)
             sels.append((src, sel, true_info(src, sel)))
         first_one = [s for s in sels if s[2]["c0"] == 1 and s[2]["L"] > 1]
-        rest = [s for s in sels if not (s[2]["c0"] == 1 and s[2]["L"] > 1)]
+        unit = [s for s in sels if s[2]["L"] == 1]
+        rest = [s for s in sels if s[2]["L"] != 1 and s[2]["c0"] != 1]
         for op in ops:
-            chosen = rng.sample(first_one, 2) + rng.sample(rest, 2)
+            # per operation: the first block keeps exactly one element while later blocks keep more (x2), exactly one
+            # element overall (in the first / in a later block), and another pattern (first block keeps 0 or several)
+            chosen = rng.sample(first_one, 2) + rng.sample(unit, 1) + rng.sample(rest, 1)
+            if op in ("squeeze_o", "squeeze_u_o"):
+                # need a known axis of length one next to the unknown axis
+                chosen = []
+                for counts in _samp(rng, FIRST_ONE, 2) + _samp(rng, UNIT, 1) + _samp(rng, PATTERNS, 1):
+                    s2, l2 = gen_selection(rng, counts, nd=rng.choice([2, 2, 3]), olen=1)
+                    chosen.append((s2, l2, true_info(s2, l2)))
+            if op in ("item", "float", "bool", "index", "len", "iter"):
+                chosen = []
+                for counts in _samp(rng, FIRST_ONE, 2) + _samp(rng, UNIT, 1) + _samp(rng, PATTERNS, 1):
+                    s2, l2 = gen_selection(rng, counts, nd=1)
+                    chosen.append((s2, l2, true_info(s2, l2)))
             for src, sel, G in chosen:
                 ps = params(rng, op, G)
                 if not ps:
@@ -741,7 +856,9 @@ def run_stream(ctx):
                             src, sel, G = s2, l2, G2
                             break
                 for p in ps:
-                    phases = ("before", "after") if rng.random() < ctx.scale(0.5, 1.0) else ("before",)
+                    phases = ("before", "after") if rng.random() < ctx.scale(0.25, 1.0) else ("before",)
+                    if len(phases) == 2 and isinstance(p.get("partner"), dict) and p["partner"].get("umask") and rng.random() < 0.5:
+                        phases = ("before", "partial")  # the selection resolved, the unknown partner not
                     for phase in phases:
                         case = {"stream": "validity", "src": src, "sel": sel, "op": op, "p": p, "phase": phase, "opt": rng.random() < 0.6}
                         _run_case(ctx, case, tally)
